@@ -274,6 +274,26 @@ def run(rep, work, tier, seed, props, replay=None):
                 else:
                     n_viol += 1
                     rep.violation({"kind": "conv_nd rejects a valid tiling (no known finding lists it)", "task": t, "impl": r})
+    # batchnorm, gru, softmax / logsoftmax and the losses against their documented formulas evaluated naively in plain Python floats
+    fseeds = [seed + k for k in range(8 if tier == "thorough" else 2)]
+    formula_checked, formula_fails = 0, []
+    if replay is None or "formula_seed" in (replay or {}):
+        if replay is not None:
+            fseeds = [replay["formula_seed"]]
+        for sd, rr in zip(fseeds, run_impl_parallel("c16_formulas_impl.py", [{"seeds": [sd]} for sd in fseeds])):
+            r0 = rr["results"][0]
+            if "harness_error" in r0:
+                raise HarnessError("c16_formulas_impl: " + r0["harness_error"])
+            formula_checked += r0["checked"]
+            for f in r0["fails"]:
+                formula_fails.append((sd, f))
+        shown = set()
+        for sd, f in formula_fails:
+            key = f.split(" ")[0].split("(")[0]
+            if key in shown or len(shown) >= 6:
+                continue
+            shown.add(key)
+            rep.violation({"kind": "a layer / loss does not return its documented formula: " + f[:300], "formula_seed": sd})
     if not props["ok"]:
         rep.violation({"kind": "proof obligations of Props/C16.v no longer check", "broken": "Props/C16.v", "log": props["log"][-1500:]},
                       no_input=(n_viol == 0))
@@ -283,7 +303,8 @@ def run(rep, work, tier, seed, props, replay=None):
         if t["kind"] == "swv":
             layouts[t["layout"]] = layouts.get(t["layout"], 0) + 1
     rep.coverage.update({
-        "evaluations": len(tasks),
+        "evaluations": len(tasks) + formula_checked,
+        "documented_formula_checks": formula_checked, "documented_formula_failures": len(formula_fails),
         "distinct_nontrivial": len(nt),
         "rule": "configurations of sliding_window_view (shape x layout x dtype x window x step x dilation, incl. malformed), conv_nd (extent, padding, window, stride, dilation per axis) "
                 "and max_pool; exhaustive 1-d lattices plus seeded random n-d; non-trivial = step, dilation or padding differs from the default; distinct = distinct configuration",
@@ -298,5 +319,6 @@ def run(rep, work, tier, seed, props, replay=None):
     rep.assumptions += [
         "np.lib.stride_tricks.as_strided returns exactly the requested shape/strides; np.ascontiguousarray yields row-major strides",
         "conv/pool VALUES are compared with naive nested loops on exact small integers (test, not theorem); the theorems cover acceptance, shapes, strides, element map and bounds",
-        "batchnorm, gru, softmax/logsoftmax and the losses are not yet covered by this check (see DESIGN.md)",
+        "batchnorm, gru (any s0), softmax/logsoftmax (all axis forms) and the losses (all options: hinge, margin, alpha/gamma, weights) are compared with their documented formulas evaluated "
+        "naively in Python floats (1e-10): a test over option sweeps, not a theorem; their real-number meaning is in Model/VecOps.v for softmax, logsoftmax, cross-entropy and batchnorm",
     ]
